@@ -278,6 +278,9 @@ class TcpConnection(object):
         if len(self.__readBuffer) < 4:
             return None
         l = struct.unpack('i', self.__readBuffer[:4])[0]
+        if l < 0:
+            self.disconnect()
+            return None
         if len(self.__readBuffer) - 4 < l:
             return None
         data = self.__readBuffer[4:4 + l]
